@@ -53,9 +53,20 @@ class Ent(Obj):
 
 
 class Atom(Obj):
-    """Abstract record with identity semantics: two Atoms are equal iff they are the same record, so equality and
-    membership tests on them are decided instead of becoming symbolic conditions (e.g. the distinct indices of a
-    concrete scenario)."""
+    """Abstract record with *concrete identity* (an element of a small finite model chosen by the rule, e.g. one
+    orbital index): two Atoms are equal iff they are the same object, so ``==`` / ``is`` / ``in`` against concrete
+    values and containers are decided by the evaluator instead of becoming symbolic comparisons of record names.
+    The hash is the creation serial, which keeps set/dict iteration order deterministic.  An Atom with a true
+    ``_scalar`` attribute is not iterable (iterating/unpacking it raises TypeError like a sympy expression)."""
+    _serial = 0
+
+    def __init__(self, cls=None, name=None, **attrs):
+        super().__init__(cls, name, **attrs)
+        Atom._serial += 1
+        self.__dict__["serial"] = Atom._serial
+
+    def __hash__(self):
+        return self.__dict__["serial"]
 
 
 class Func:
@@ -170,7 +181,7 @@ class Symex:
 
     def __init__(self, model, inline=None, hooks=None, unroll=2, max_paths=512, max_steps=200000, what="?",
                  assume_asserts=True, isinstance_hook=None, attr_hook=None, max_depth=12, cut_loops=False,
-                 oracle=None, occurrence=None):
+                 oracle=None, occurrence=None, recursion_error=False):
         self.model = model
         self.inline = inline or (lambda q: False)
         self.hooks = dict(hooks or {})
@@ -189,6 +200,7 @@ class Symex:
         # occurrence(name) -> True: results of these uninterpreted calls are tagged with the number of the call
         # event (T("occ", term, k)), so that a value computed once and used twice is distinguishable from two calls
         self.occurrence = occurrence
+        self.recursion_error = recursion_error  # exceeding max_depth is the analysed program's RecursionError
         self._modconst = {}
         self.fresh_n = 0
         self.on_start = None
@@ -497,6 +509,8 @@ class Symex:
             return it if isinstance(it, list) else list(it)
         if isinstance(it, T):
             return [T("elem", it, k) for k in range(self.unroll)]
+        if isinstance(it, Atom) and it.attrs.get("_scalar"):
+            raise Raised("TypeError", f"{it!r} is not iterable", node)
         if isinstance(it, Obj):
             return [T("elem", it.term, k) for k in range(self.unroll)]
         self.unsupported(node, f"iteration over {type(it).__name__}")
@@ -534,6 +548,8 @@ class Symex:
                     self.unsupported(t, "starred unpacking of a term")
                 vs = [T("item", v, i) for i in range(len(t.elts))]
             else:
+                if v is None:
+                    raise Raised("TypeError", "cannot unpack None", t)
                 try:
                     vs = list(v)
                 except TypeError:
@@ -722,6 +738,23 @@ class Symex:
         except Exception:
             self.unsupported(node, f"arithmetic on {type(a).__name__}, {type(b).__name__}")
 
+    def _atom_compare(self, opname, a, b, node):
+        """Comparisons that involve an ``Atom`` and no symbolic term are decided by identity."""
+        if isinstance(a, T) or isinstance(b, T):
+            return NotImplemented
+        if opname in ("in", "not in"):
+            if not isinstance(a, Atom):
+                return NotImplemented
+            if isinstance(b, str):
+                raise Raised("TypeError", None, node)
+            if not isinstance(b, (dict, list, tuple, set, frozenset)) or any(isinstance(e, T) for e in b):
+                return NotImplemented
+            r = any(e is a for e in b)
+            return r if opname == "in" else not r
+        if opname in ("==", "!=", "is", "is not"):
+            return (a is b) if opname in ("==", "is") else (a is not b)
+        return NotImplemented
+
     def compare(self, opname, a, b, node):
         if (isinstance(a, Ent) or isinstance(b, Ent)) and opname in ("==", "!=", "is", "is not") \
                 and not isinstance(a, T) and not isinstance(b, T):
@@ -732,6 +765,10 @@ class Symex:
                 return r if opname == "in" else not r
         if isinstance(a, Atom) and opname in ("in", "not in") and isinstance(b, (list, tuple, set, frozenset, dict)):
             return any(e is a for e in b) == (opname == "in")
+        if isinstance(a, Atom) or isinstance(b, Atom):
+            r = self._atom_compare(opname, a, b, node)
+            if r is not NotImplemented:
+                return r
         if isinstance(a, Ext):
             a = sym(a.name)
         if isinstance(b, Ext):
@@ -1304,6 +1341,9 @@ class Symex:
         fn = f.node
         self.depth += 1
         if self.depth > self.max_depth:
+            if self.recursion_error:
+                self.depth -= 1
+                raise Raised("RecursionError", f"call depth {self.max_depth} exceeded", node)
             self.unsupported(node, "inlining depth exceeded")
         saved = (self.frames, self.module)
         try:
